@@ -78,4 +78,23 @@ theorem identity (k : Keys) (ek : Option EventKeys) (fails : Bool) (ov : Overrid
     (h : (effOps ov).all (· = .none) = true) : processFlat k ek fails ov fs = .same := by
   unfold processFlat; simp [h]
 
+
+/-! ### nested payloads (M7t `EncryptTree`) -/
+section Tree
+open Evl.EncryptTree
+
+/-- **Shape preserved at any depth.**  Whatever Process forwards has the input's skeleton: the same
+constructors (pointer stays pointer, struct stays struct with the same fields in the same order,
+slices and maps keep their lengths and keys, nil stays nil), a string / []byte position stays one,
+every other scalar is untouched. -/
+theorem tree_shape (c : Ctx) (ewi : Bool) (v v' : V) (h : process c ewi v = .filtered v') : skel v' = skel v :=
+  filtPayload_skel c v v' (process_filtered h)
+
+/-- with every operation overridden to none the very same event is forwarded -/
+theorem tree_identity (c : Ctx) (ewi : Bool) (v : V) (h : ((effOps c.ov).all (· = .none)) = true) :
+    process c ewi v = .same := by
+  unfold process; simp [h]
+
+end Tree
+
 end Evl.C10
